@@ -193,6 +193,22 @@ fn sample_offsets(len: usize) -> Vec<usize> {
     }
 }
 
+/// Which entry of the part-flag menu the low byte of `context_flags` is (evidence only).
+fn low_flags_class(c: &ContextM) -> &'static str {
+    let parts = c.kind.part_flags();
+    let all = parts.iter().fold(0u8, |a, b| a | b);
+    match c.low_flags {
+        0 => "none (CPU bit alone)",
+        0xff => "every bit below the CPU mask",
+        0x40 if matches!(c.kind, CpuKind::X86 | CpuKind::Amd64) => "xstate alone (0x40)",
+        x if parts.contains(&x) => "one documented part",
+        x if x == all => "all documented parts",
+        x if x == c.kind.default_low_flags() => "writer default",
+        x if x & 0x40 != 0 && matches!(c.kind, CpuKind::X86 | CpuKind::Amd64) => "other combination with xstate (0x40)",
+        _ => "other combination",
+    }
+}
+
 fn check_context(v: &mut V, point: &str, path: &str, cm: &Option<ContextM>, si_arch: Option<u16>, got: Option<std::borrow::Cow<MinidumpContext>>) {
     match cm {
         None => {
@@ -211,6 +227,9 @@ fn check_context(v: &mut V, point: &str, path: &str, cm: &Option<ContextM>, si_a
                 Some(g) => {
                     let (k, le) = raw_context_le(&g.raw);
                     v.l.outcome(&format!("context read: {}", c.kind.name()));
+                    if !c.via_synth {
+                        v.l.outcome(&format!("context read with part flags: {}", low_flags_class(c)));
+                    }
                     v.ob(format!("{path}.context"), format!("{k:?}:{:016x}:ip={:x}:sp={:x}", hash_of(&le), g.get_instruction_pointer(), g.get_stack_pointer()));
                     if k != c.kind {
                         v.bad(&format!("{point}.context-kind"), format!("{path}: context layout {k:?}, model {:?}", c.kind));
@@ -886,7 +905,9 @@ fn mk_context(kind: CpuKind, i: usize, p: usize, sp: u64) -> ContextM {
     if (i + p) % 4 == 3 && matches!(kind, CpuKind::X86 | CpuKind::Amd64 | CpuKind::Arm64) {
         ContextM::synth(kind, 0x40_1000 + i as u64, sp)
     } else {
-        ContextM::new(kind, ((i + p) % 3) as u8, pat64(i, p + 1), sp)
+        // the part flags walk through the CPU's menu (none, each documented part, all, every low bit)
+        let menu = kind.low_flags_menu();
+        ContextM::new(kind, ((i + p) % 3) as u8, pat64(i, p + 1), sp).with_low_flags(menu[(i + 2 * p + 1) % menu.len()])
     }
 }
 fn mk_thread(i: usize, p: usize, kind: CpuKind) -> ThreadM {
@@ -1188,6 +1209,34 @@ fn space_exception() -> Space {
     })
 }
 
+/// Every CPU layout x part flags in `context_flags` (the bits below the documented CPU mask 0xffffff00):
+/// one thread and the exception record of one dump carry a context with the same flags.
+fn space_context_flags(tier: Tier) -> Space {
+    // (layout, processor_architecture announcing it): the nine layouts, and x86 under IA32_ON_WIN64
+    let layouts: Vec<(CpuKind, u16)> = CpuKind::ALL.iter().map(|k| (*k, k.arch())).chain([(CpuKind::X86, 10u16)]).collect();
+    let mut pairs: Vec<(CpuKind, u16, u8)> = vec![];
+    for (k, arch) in layouts {
+        let lows: Vec<u8> = match tier {
+            Tier::Quick => k.low_flags_menu(),
+            Tier::Thorough => (0..=255u8).collect(),
+        };
+        pairs.extend(lows.into_iter().map(|l| (k, arch, l)));
+    }
+    let rad = [pairs.len() as u64, 3, 3];
+    space("context-flags-product", product(&rad), move |idx| {
+        let d = unrank(idx, &rad);
+        let (kind, arch, low) = pairs[d[0] as usize];
+        let (fill, pv) = (d[1] as u8, d[2] as usize);
+        let (ip, sp) = [(0x40_1000u64, 0x7000_0010u64), (0, 0), (u64::MAX, u64::MAX)][pv];
+        let tctx = ContextM::new(kind, fill, ip, sp).with_low_flags(low);
+        let xctx = ContextM::new(kind, (fill + 1) % 3, sp, ip).with_low_flags(low);
+        let t = ThreadM { id: 7, suspend_count: 1, priority_class: 0x20, priority: 2, teb: pat64(pv, 0), stack_base: 0x7000_0000, stack: vec![0xab; 32], context: Some(tctx) };
+        let par = json!({"cpu": kind.name(), "processor_architecture": arch, "context_flags": format!("{:#x}", kind.cpu_flag() | low as u32), "fill": fill, "ip": format!("{ip:#x}")});
+        let streams = vec![sysinfo(arch, [3u32, 0x8201, 0x8101][pv]), StreamM::Threads { items: vec![t], pad4: false }, StreamM::Exception(mk_exception(pv, Some(xctx)))];
+        (DumpModel { streams }, par)
+    })
+}
+
 const LIST_KINDS: [&str; 10] = ["threads", "thread_names", "modules", "unloaded", "memory", "memory_info", "linux_maps", "handles", "crashpad-simple", "crashpad-modules"];
 
 fn space_lengths(tier: Tier) -> Space {
@@ -1270,7 +1319,7 @@ fn main() {
         let mut def = CheckDef::new(
             "C02",
             "exploration",
-            "bounded-exhaustive round trip: every model of nine product spaces (one stream's value menus in full product, list lengths, all stream-presence sets of size <=2 / >=10, 2 and 3 directory entries of one type) is serialised through minidump-synth as {LE,BE} x {MemoryList,Memory64List}, parsed with Minidump::read/get_stream and compared field by field in file order with the model, every region address looked up (all addresses up to 4 KiB, boundaries + stride 251 above), identifiers compared with an independent derivation, and a structural dump of the four parses compared pairwise. evaluations = dumps parsed; distinct_nontrivial = distinct models (by content) whose four dumps all passed Minidump::read.",
+            "bounded-exhaustive round trip: every model of ten product spaces (one stream's value menus in full product, every CPU context layout x the part flags of context_flags below the CPU mask 0xffffff00, list lengths, all stream-presence sets of size <=2 / >=10, 2 and 3 directory entries of one type) is serialised through minidump-synth as {LE,BE} x {MemoryList,Memory64List}, parsed with Minidump::read/get_stream and compared field by field in file order with the model, every region address looked up (all addresses up to 4 KiB, boundaries + stride 251 above), identifiers compared with an independent derivation, and a structural dump of the four parses compared pairwise. evaluations = dumps parsed; distinct_nontrivial = distinct models (by content) whose four dumps all passed Minidump::read.",
         );
         def.assumptions = vec![
             "modules / unloaded modules with size 0 or base+size > 2^64 are documented as dropped and are not generated; regions, modules and memory-info entries never overlap (overlap handling is C08)".into(),
@@ -1280,6 +1329,7 @@ fn main() {
             "PDB70 with an all-zero GUID is expected to give no debug id (treated like the documented empty ELF id); CodeId is compared in its normalised lower-case form".into(),
             "platform ids 1 (Win32s), 4 (WinCE) and 0x8000 (Unix) have no documented Os mapping: raw fields are compared, the Os mapping and OS-dependent module identifiers are not".into(),
             "a thread/exception context is compared only when the served system info announces the CPU it was written for; context comparison is the little-endian image of all fields (scroll derive symmetry trusted, cross-checked by minidump-synth's independent writers for x86/amd64/arm64)".into(),
+            "context_flags = the CPU's identifying bit (inside the documented CONTEXT_CPU_MASK 0xffffff00) | part flags in the low byte; the low byte takes: 0, each documented part bit alone (x86/amd64: control, integer, segments, floating point, debug, extended registers, 0x40 xstate = CONTEXT_HAS_XSTATE; arm/arm64/arm64_old/ppc/ppc64/sparc/mips: their winnt.h / Breakpad part bits), all documented parts, the writer default, and 0xff (thorough tier: all 256 values); the documentation makes only the masked bits CPU-identifying, so every such context must read back as a context of its CPU with all fields (including context_flags) as written. x86 is also announced as IA32_ON_WIN64 (10)".into(),
             "ELF build-id debug ids are compared with the reference in little-endian dumps only; in big-endian dumps the field is judged by the LE/BE comparison (known finding F18)".into(),
             "linux maps lines are restricted to the six-column form with paths procfs-core maps to Path/Heap/Stack/Vdso/Anonymous".into(),
         ];
@@ -1287,12 +1337,13 @@ fn main() {
             "list_lengths": if t == Tier::Quick { json!([0, 1, 2, 3, 40]) } else { json!("0..=40") },
             "elf_build_id_lengths": ELF_LENS,
             "codeview_menu": cv_menu(t).len(),
+            "context_low_flag_bytes_per_cpu": if t == Tier::Quick { json!(CpuKind::ALL.iter().map(|k| (k.name(), k.low_flags_menu())).collect::<std::collections::BTreeMap<_, _>>()) } else { json!("0..=255") },
             "menus": if t == Tier::Quick { "first <=3 (OS: 4) values of each menu" } else { "full menus" },
             "regions_per_memory_product_case": "1..3, full product of 4 sizes x 5 placements per region",
             "region_sizes": [1, 17, 4096, 65536],
             "variants_per_model": ["LE/MemoryList", "LE/Memory64List", "BE/MemoryList", "BE/Memory64List"],
         }));
-        def.spaces = vec![space_modules(t), space_threads(), space_memory(t), space_sysinfo(t), space_misc(), space_exception(), space_lengths(t), space_presence(), space_duplicates()];
+        def.spaces = vec![space_modules(t), space_threads(), space_memory(t), space_sysinfo(t), space_misc(), space_exception(), space_context_flags(t), space_lengths(t), space_presence(), space_duplicates()];
         def
     })
 }
